@@ -23,6 +23,8 @@ func init() {
 			"NOT decided: where failure strings occur in device output (run-time values) — not needed, the scan is a library substring search.",
 		Assumptions: []string{"strings.Contains is the substring predicate"},
 		Mutants: []Mutant{
+			{ID: "C13-long-lines-split", Desc: "LoadFileLines reads with ReadLine and ignores the continuation flag", Rule: "C13/file-lines",
+				Edits: []Edit{{File: "util/file.go", Old: "\tscanner := bufio.NewScanner(file)\n\tscanner.Split(bufio.ScanLines)\n\n\tvar lines []string\n\n\tfor scanner.Scan() {\n\t\tlines = append(lines, scanner.Text())\n\t}\n", New: "\treader := bufio.NewReader(file)\n\n\tvar lines []string\n\n\tfor {\n\t\tline, _, readErr := reader.ReadLine()\n\t\tif readErr != nil {\n\t\t\tbreak\n\t\t}\n\n\t\tlines = append(lines, string(line))\n\t}\n"}}},
 			{ID: "C13-stop-on-success", Desc: "stop-on-failed stops on the first successful command", Rule: "C13/stop",
 				Edits: []Edit{{File: "driver/generic/sendcommands.go", Old: "if op.StopOnFailed && r.Failed != nil {", New: "if op.StopOnFailed && r.Failed == nil {"}}},
 			{ID: "C13-precedence-inverted", Desc: "interactive failure list precedence inverted", Rule: "C13/precedence",
@@ -56,6 +58,8 @@ func init() {
 func runC13(c *Ctx, r *Report) {
 	r.Rule("C13/no-shadow", "network.Driver re-declares no same-typed setting of the generic driver it embeds (FailedWhenContains stays one setting)", 1)
 	checkNoShadowedSettings(c, r, "C13/no-shadow")
+	r.Rule("C13/file-lines", "the from-file variants get one command per line of the file, whatever its length (a line reader's continuation flag is not ignored)", 1)
+	checkFileLines(c, r, "C13/file-lines")
 	r.Rule("C13/fresh-operation", "generic.NewOperation and network.NewOperation hand every caller a freshly allocated options object", 2)
 	checkFreshOperation(c, r, "C13/fresh-operation", []string{"driver/generic", "driver/network"})
 	r.Rule("C13/precedence", "the driver failure list is used exactly when the operation list is empty, and that list is given to NewResponse", 6)
